@@ -38,7 +38,7 @@ def candidates(rng, n):
                 E2 = copy.deepcopy(E)
                 E2["id"], E2["name"], E2["perr"], E2["phf"] = did, "E%d" % did, perr, phf
                 # the error type / function may be written relative to the enum itself
-                E2["perr_form"] = (did % 8) if perr else 0
+                E2["perr_form"] = (did % 9) if perr else 0
                 E2["via_macro"] = E2["perr_form"] == 0 and did % 2 == 1
                 cands.append(E2)
                 did += 1
@@ -53,10 +53,17 @@ def module(E):
     if form == 1:
         src = src.replace("parse_err_fn = user_err", "parse_err_fn = Self::make_err")
         g = D.GENERICS[E["generics"]]
-        tg = {"none": "", "ty": "<T>", "tywhere": "<T>", "lt": "<'a>", "const": "<N>", "tyconst": "<T, N>", "tydef": "<T>", "constdef": "<N>"}[E["generics"]]
-        src += "impl%s %s%s%s { pub fn make_err(s: &str) -> UserErr { user_err(s) } }\n" % (g.get("impl_decl", g["decl"]), E["name"], tg, g.get("where", ""))
+        src += "%s { pub fn make_err(s: &str) -> UserErr { user_err(s) } }\n" % D.impl_header(E)
     elif form == 3:
         src = src.replace("parse_err_fn = user_err", "parse_err_fn = UserErr::from")        # impl From<&str> for UserErr
+    elif form == 8:
+        # the user's own error type carries the name of strum's
+        src = src.replace("parse_err_ty = UserErr", "parse_err_ty = ParseError").replace("parse_err_fn = user_err", "parse_err_fn = ParseError::unknown")
+        src = src.replace("parse_batch::<%s, UserErr>" % D.inst(E), "parse_batch::<%s, ParseError>" % D.inst(E))
+        src = src.replace("perr_event::<%s, UserErr>" % D.inst(E), "perr_event::<%s, ParseError>" % D.inst(E))
+        src += ("#[derive(Debug, Clone, PartialEq)]\npub struct ParseError(pub String);\n"
+                "impl ParseError { pub fn unknown(s: &str) -> ParseError { ParseError(user_err(s).0) } }\n"
+                "impl ErrProbe for ParseError { fn enc(&self) -> (&'static str, Option<String>) { (\"ue\", Some(self.0.clone())) } }\n")
     elif form == 7:
         # `::core::..` is rooted at the crate list: a local module called `core` must not be looked at
         src = src.replace("parse_err_fn = user_err", "parse_err_fn = ::core::convert::From::from") + "pub mod core { pub mod convert {} }\n"
